@@ -193,6 +193,12 @@ def rule_L5(ctx) -> None:
     paths = Interp(mod).run(fb)
     ok = True
     detail = ""
+    gen = shared_chunk_generator(mod)
+    if gen is not None and all(p.outcome == "return" and p.value is not None and p.value == ("call", A(C(b""), "join"), (("call", A(N("self"), gen), (), ()),), ()) for p in paths):
+        # dump writes every chunk of self.<gen>() and nothing else after the prefix; __bytes__ joins the same chunks
+        ctx.count(len(paths))
+        ctx.proved("L5", "Message.__bytes__->dump", mod.loc(fb), f"both are the chunks of self.{gen}()")
+        paths = []
     for p in paths:
         dumps = [e for e in p.events if e.kind == "call" and dotted(e.data[1]) == "self.dump"]
         if len(dumps) != 1:
@@ -209,7 +215,9 @@ def rule_L5(ctx) -> None:
             ok, detail = False, f"does not return the dumped stream's value: {show(p.value) if p.value else None}"
             break
     ctx.count(len(paths))
-    if ok:
+    if not paths:
+        pass
+    elif ok:
         ctx.proved("L5", "Message.__bytes__->dump", mod.loc(fb))
     else:
         ctx.refuted("L5", "Message.__bytes__->dump", detail, mod.loc(fb), detail)
@@ -226,6 +234,37 @@ def rule_L5(ctx) -> None:
                     "SerializeToString does not return bytes(self)")
 
     rule_L5d(ctx, "L5")
+
+
+def shared_chunk_generator(mod):
+    """name of the generator method G when Message.dump, after an optional size prefix, is exactly `for c in self.G(): stream.write(c)`
+    (the unexpanded source): then the bytes of the message are the concatenation of G's chunks"""
+    nodes = mod.defs.get("Message.dump")
+    if not nodes:
+        return None
+    dump = nodes[0]
+    stream = dump.args.args[1].arg if len(dump.args.args) > 1 else "stream"
+    body = [st for st in dump.body if not (isinstance(st, ast.Expr) and isinstance(st.value, ast.Constant))]
+    loops = [st for st in body if isinstance(st, ast.For)]
+    if len(loops) != 1:
+        return None
+    lp = loops[0]
+    if not (isinstance(lp.iter, ast.Call) and isinstance(lp.iter.func, ast.Attribute) and isinstance(lp.iter.func.value, ast.Name) and lp.iter.func.value.id == "self"
+            and not lp.iter.args and not lp.iter.keywords and isinstance(lp.target, ast.Name) and len(lp.body) == 1 and not lp.orelse):
+        return None
+    w = lp.body[0]
+    if not (isinstance(w, ast.Expr) and isinstance(w.value, ast.Call) and ast.unparse(w.value.func) == f"{stream}.write" and len(w.value.args) == 1
+            and isinstance(w.value.args[0], ast.Name) and w.value.args[0].id == lp.target.id):
+        return None
+    # nothing else writes after the loop
+    after = body[body.index(lp) + 1:]
+    if any(isinstance(c, ast.Call) and ast.unparse(c.func) == f"{stream}.write" for st in after for c in ast.walk(st)):
+        return None
+    g = lp.iter.func.attr
+    gn = mod.defs.get(f"Message.{g}")
+    if not gn or not any(isinstance(y, (ast.Yield, ast.YieldFrom)) for y in ast.walk(gn[0])):
+        return None
+    return g
 
 
 def stale_scratch_locals(fn: ast.AST, lp: ast.AST):
